@@ -325,6 +325,8 @@ def p_history(spec_a, route_a, hist_a, spec_b, hist_b):
             ("bbox &", lambda: ba & bb, lambda v: v.bbox == (5, 5, 10, 10) and v.crs is X),
             ("GeoBox |", lambda: G1 | G2, lambda v: v.crs is X),
             ("GeoBox.overlap_roi", lambda: G1.overlap_roi(G2), lambda v: True),
+            ("GeoBox.overlap_roi same affine", lambda: G1.overlap_roi(mk_gbox((2, 7), (0, 0), Y)), lambda v: True),
+            ("GeoBox & same affine", lambda: G1 & mk_gbox((2, 7), (0, 0), Y), lambda v: v.crs is X),
         ]
         for name, fn, good in ops:
             try:
@@ -756,13 +758,14 @@ def p_nary(fname, tl, ks):
     return got.geom.wkb == want.wkb and got.crs is first, f"returned {got!r}; shapely gives {want.wkt[:80]}"
 
 
-def p_geobox(opname, ta, tb):
-    """GeoBox pair operations: different CRS -> ValueError; equal -> succeeds, tagged like the first operand"""
+def p_geobox(opname, ta, tb, shift=(2, -1), shape_b=(3, 3)):
+    """GeoBox pair operations: different CRS -> ValueError; equal -> succeeds, tagged like the first operand.
+    `shift` = pixel shift of the second box ((0, 0): IDENTICAL affine), `shape_b` its shape."""
     from odc.geo.geobox import (bounding_box_in_pixel_domain, geobox_intersection_conservative,
                                 geobox_union_conservative, pixel_translation)
     T = tags()
     A = mk_gbox((4, 5), (0, 0), crs_obj(T, ta))
-    B = mk_gbox((3, 3), (2, -1), crs_obj(T, tb))
+    B = mk_gbox(tuple(shape_b), tuple(shift), crs_obj(T, tb))
     ops = {"or": lambda: A | B, "and": lambda: A & B, "overlap_roi": lambda: A.overlap_roi(B), "snap_to": lambda: A.snap_to(B),
            "pixel_translation": lambda: pixel_translation(A, B), "bounding_box_in_pixel_domain": lambda: bounding_box_in_pixel_domain(A, B),
            "union3": lambda: geobox_union_conservative([A, A, B]), "intersection3": lambda: geobox_intersection_conservative([A, A, B])}
@@ -868,6 +871,8 @@ def search(out, tier, offenders):
         out.count("predicate:" + name)
         out.case(("pred", name, json.dumps(list(args), default=str)), True)
         key = f"c01:{name}:{args[0]}" if name in ("pair", "nary", "geobox", "call_mixed") else f"c01:{name}"
+        if name == "geobox" and len(args) > 3 and list(args[3]) == [0, 0]:
+            key += ":same-affine"
         if name == "history":
             key = f"c01:history:{str(args[0])[:24]}"
         if not ok and key not in found:
@@ -889,6 +894,10 @@ def search(out, tier, offenders):
         run("split", ta, tb)
         for op in ("or", "and", "overlap_roi", "snap_to", "pixel_translation", "bounding_box_in_pixel_domain", "union3", "intersection3"):
             run("geobox", op, ta, tb)
+            # identical affine (zero shift), same and different shape: no shortcut may bypass the CRS test
+            run("geobox", op, ta, tb, [0, 0], [4, 5])
+            run("geobox", op, ta, tb, [0, 0], [2, 7])
+            run("geobox", op, ta, tb, [rng.randint(-6, 6), rng.randint(-6, 6)], [rng.randint(1, 7), rng.randint(1, 7)])
     # CRS equality under histories: every discovered (PROJ string, EPSG spelling) pair x construction
     # route x what happened to either object before the operands are combined
     hp = history_pairs(tier)
